@@ -74,12 +74,17 @@ func tthammer(args []string) {
 				for k := 0; k < *calls; k++ {
 					barrier(k)
 					cid := atomic.AddInt64(&id, 1)
-					h := board.ZobristHash(gr.Intn(nh))
+					// hashes that share a slot, and hashes that even share their low 32 bits and differ above
+					// only: the table must tell all of them apart. Logged as lo + 8*hi (same residue modulo the
+					// slot count as the real hash, which TLC's 32-bit integers cannot hold)
+					lo, hi := gr.Intn(nh), gr.Intn(3)
+					h := board.ZobristHash(uint64(lo) | uint64(hi)<<uint(32+13*hi))
+					hid := lo + 8*hi
 					if gr.Intn(3) == 0 {
 						inv := atomic.AddInt64(&clock, 1)
 						bound, depth, score, mv, ok := tt.Read(h)
 						resp := atomic.AddInt64(&clock, 1)
-						mine = append(mine, ttCall{inv, out.M{"op": "inv", "id": cid, "g": gi, "call": "r", "h": int(h)}})
+						mine = append(mine, ttCall{inv, out.M{"op": "inv", "id": cid, "g": gi, "call": "r", "h": hid}})
 						mine = append(mine, ttCall{resp, out.M{"op": "resp", "id": cid, "ok": proj.B2I(ok), "bound": int(bound), "depth": depth,
 							"score": proj.ScoreOf(score), "mv": proj.Move(mv)}})
 					} else {
@@ -96,7 +101,7 @@ func tthammer(args []string) {
 						inv := atomic.AddInt64(&clock, 1)
 						ok := tt.Write(h, bound, ply, depth, score, mv)
 						resp := atomic.AddInt64(&clock, 1)
-						mine = append(mine, ttCall{inv, out.M{"op": "inv", "id": cid, "g": gi, "call": "w", "h": int(h), "bound": int(bound),
+						mine = append(mine, ttCall{inv, out.M{"op": "inv", "id": cid, "g": gi, "call": "w", "h": hid, "bound": int(bound),
 							"ply": ply, "depth": depth, "score": proj.ScoreOf(score), "mv": proj.Move(mv)}})
 						mine = append(mine, ttCall{resp, out.M{"op": "resp", "id": cid, "ok": proj.B2I(ok), "bound": 0, "depth": 0,
 							"score": proj.ScoreOf(eval.Score{}), "mv": []int{0, 0, 0}}})
